@@ -175,9 +175,27 @@ fn rng_for(seed: u64, check: &str, worker: u64) -> TestRng {
     TestRng::from_seed(RngAlgorithm::ChaCha, &bytes)
 }
 
+/// Triage mode (env VERIF_COLLECT=1, development only): every failure is tolerated and tallied by
+/// (rule, signature) so that one run shows all failing classes. Never used by registered commands.
+pub static COLLECTED: std::sync::Mutex<BTreeMap<(String, String), (u64, String)>> = std::sync::Mutex::new(BTreeMap::new());
+
+pub fn collecting() -> bool {
+    static ON: std::sync::OnceLock<bool> = std::sync::OnceLock::new();
+    *ON.get_or_init(|| std::env::var("VERIF_COLLECT").is_ok())
+}
+
 /// Is `f` listed as an open known finding for `prop`?
 pub fn is_known(ctx: &Ctx, f: &Fail) -> bool {
-    !ctx.strict && ctx.known.iter().any(|k| k.open && k.rule == f.rule && k.sig == f.sig)
+    if ctx.strict {
+        return false;
+    }
+    if collecting() {
+        let mut g = COLLECTED.lock().unwrap();
+        let e = g.entry((f.rule.clone(), f.sig.clone())).or_insert((0, f.detail.clone()));
+        e.0 += 1;
+        return true;
+    }
+    ctx.known.iter().any(|k| k.open && k.rule == f.rule && k.sig == f.sig)
 }
 
 /// Fixed-work random search with shrinking. `cases` is the total over all workers.
